@@ -366,4 +366,216 @@ theorem sg_extend {s : St} (hi : SInv s) {tbase tsize : Nat} (hf : SgFresh s tba
     · omega
   · right; exact h
 
+/-! ## `trim_top`, `sys_trim` -/
+
+/-- `trim_release` only talks to the OS; it reports `extra` or nothing -/
+theorem sg_trim_release_eq {s s1 : St} {sp : Seg} {extra rel : Nat} (h : trim_release s sp extra = .ok (s1, rel)) :
+    (∃ q ev, s1 = { s with osq := q, evs := ev }) ∧ (rel = extra ∨ rel = 0) := by
+  unfold trim_release at h
+  dsimp only at h
+  split at h
+  · msimp at h
+    obtain ⟨⟨ok, s2⟩, hr, h⟩ := h
+    obtain ⟨q, hq, hs2⟩ := popR_spec hr
+    dsimp only at h
+    split at h
+    · msimp at h
+      simp only [Prod.mk.injEq] at h
+      obtain ⟨e1, e2⟩ := h
+      subst e1; subst e2; subst hs2
+      exact ⟨⟨_, _, rfl⟩, Or.inl rfl⟩
+    · msimp at h
+      obtain ⟨⟨ok2, s3⟩, hu, h⟩ := h
+      obtain ⟨q2, hq2, hs3⟩ := popU_spec hu
+      simp only [Prod.mk.injEq] at h
+      obtain ⟨e1, e2⟩ := h
+      subst e1; subst e2; subst hs3; subst hs2
+      refine ⟨⟨_, _, rfl⟩, ?_⟩
+      cases ok2
+      · exact Or.inr rfl
+      · exact Or.inl rfl
+  · msimp at h
+    simp only [Prod.mk.injEq] at h
+    obtain ⟨e1, e2⟩ := h
+    subst e1; subst e2
+    exact ⟨⟨s.osq, s.evs, rfl⟩, Or.inr rfl⟩
+
+/-- the amount `trim_top` tries to give back leaves more than `pad` bytes in `top` -/
+theorem sg_trim_extra {topsize pad : Nat} (h : topsize > pad) :
+    ((topsize - pad + DEFAULT_GRANULARITY - 1) / DEFAULT_GRANULARITY - 1) * DEFAULT_GRANULARITY + pad < topsize ∧
+    (((topsize - pad + DEFAULT_GRANULARITY - 1) / DEFAULT_GRANULARITY - 1) * DEFAULT_GRANULARITY) % 65536 = 0 := by
+  rw [DEFAULT_GRANULARITY_eq]
+  omega
+
+theorem sg_dropEnts_foot {pre post : List Ent} {x f : Ent} {lo hi : Nat}
+    (hpre : ∀ q ∈ pre, q.addr < lo) (hx : x.addr < lo) (hf : lo ≤ f.addr ∧ f.addr < hi) (hpost : ∀ q ∈ post, hi ≤ q.addr) :
+    (pre ++ [x, f] ++ post).filter (fun e => !(decide (lo ≤ e.addr) && decide (e.addr < hi))) = pre ++ [x] ++ post := by
+  rw [List.filter_append, List.filter_append]
+  have h1 : pre.filter (fun e => !(decide (lo ≤ e.addr) && decide (e.addr < hi))) = pre := by
+    apply List.filter_eq_self.2
+    intro q hq
+    have := hpre q hq
+    simp only [Bool.not_eq_true', Bool.and_eq_false_iff, decide_eq_false_iff_not]
+    left; omega
+  have h2 : post.filter (fun e => !(decide (lo ≤ e.addr) && decide (e.addr < hi))) = post := by
+    apply List.filter_eq_self.2
+    intro q hq
+    have := hpost q hq
+    simp only [Bool.not_eq_true', Bool.and_eq_false_iff, decide_eq_false_iff_not]
+    right; omega
+  rw [h1, h2]
+  congr 2
+  have c1 : (!(decide (lo ≤ x.addr) && decide (x.addr < hi))) = true := by
+    simp only [Bool.not_eq_true', Bool.and_eq_false_iff, decide_eq_false_iff_not]
+    left; omega
+  have c2 : (!(decide (lo ≤ f.addr) && decide (f.addr < hi))) = false := by
+    simp only [Bool.not_eq_false', Bool.and_eq_true, decide_eq_true_eq]
+    exact hf
+  simp [List.filter, c1, c2]
+
+theorem sg_segment_holding {segs : List Seg} {a : Nat} {sp : Seg} (h : segment_holding segs a = some sp) :
+    sp ∈ segs ∧ sp.holds a = true := by
+  unfold segment_holding at h
+  have := List.find?_some h
+  exact ⟨find?_mem h, this⟩
+
+/-- **`trim_top`** keeps the invariant and the user chunks -/
+theorem sg_trim_top {s s' : St} (hi : SInv s) {pad rel : Nat} (h : trim_top s pad = .ok (s', rel)) :
+    SInv s' ∧ SameUsers s s' := by
+  have w := hi.wfs
+  unfold trim_top at h
+  dsimp only at h
+  split at h
+  · rename_i hgt0
+    split at h
+    · msimp at h
+    · rename_i sp hsh
+      obtain ⟨hsp, hsph⟩ := sg_segment_holding hsh
+      msimp at h
+      obtain ⟨⟨s1, r1⟩, ht, h⟩ := h
+      obtain ⟨⟨q1, ev1, hs1⟩, hrel⟩ := sg_trim_release_eq ht
+      obtain ⟨_, _, _, _, _, hle⟩ := trim_release_spec ht
+      subst hs1
+      dsimp only at h
+      split at h
+      · rename_i hne
+        have hr1 : r1 = ((s.h.topsize - pad + DEFAULT_GRANULARITY - 1) / DEFAULT_GRANULARITY - 1) * DEFAULT_GRANULARITY := by
+          rcases hrel with h1 | h1
+          · exact h1
+          · exact absurd h1 hne
+        obtain ⟨x1, x2⟩ := sg_trim_extra hgt0
+        rw [← hr1] at x1 x2
+        msimp at h
+        obtain ⟨_, _, s3, hinit, h⟩ := h
+        simp only [Prod.mk.injEq] at h
+        obtain ⟨h, _⟩ := h
+        subst h
+        obtain ⟨g0, rest, pre, x, f, post, hsegs, hes, hxa, hxf, hxs, hfa, hfc, hfp, hfs, hgb, hgt, htop0, hgx, hgf⟩ :=
+          w.top_parts (w.topsize_ne hsp)
+        have hg0 : g0 ∈ s.segs := by rw [hsegs]; exact List.mem_cons_self
+        obtain ⟨d1, d2, d3⟩ := sg_segsOk_cons w.segs hsegs
+        have hd0 := d3 g0 List.mem_cons_self
+        have hspx : inSeg sp x = true := by
+          unfold Seg.holds Seg.top at hsph
+          simp only [Bool.and_eq_true, decide_eq_true_eq] at hsph
+          rw [inSeg_iff]; omega
+        have : sp = g0 := sg_seg_unique w.segsDisjoint hsp hg0 hspx hgx
+        subst this
+        have hxm : x ∈ s.h.ents := by rw [hes]; simp
+        obtain ⟨hxc, hxp⟩ := isFree_iff.1 hxf
+        obtain ⟨hx16, hxs16, hxs16'⟩ := shapeOk_free w.shape hxm hxc
+        have hok := w.ents
+        rw [hes] at hok
+        obtain ⟨o1, o2, o3, o4, o5⟩ := entsOk_mid2 hok
+        -- the table after `dropEnts`
+        have hdrop : (dropEnts s.h (sp.top - r1) sp.top).ents = pre ++ [x] ++ post := by
+          unfold dropEnts Seg.top
+          show s.h.ents.filter _ = _
+          rw [hes, show pre ++ x :: f :: post = pre ++ [x, f] ++ post by simp]
+          refine sg_dropEnts_foot ?_ (by omega) (by omega) ?_
+          · intro q hq; have := o1 q hq; omega
+          · intro q hq; have := o5 q hq; omega
+        rw [hsegs, sg_replaceSeg_head] at hinit
+        simp only [show ∀ a b, (dropEnts s.h a b).top = s.h.top from fun _ _ => rfl,
+          show ∀ a b, (dropEnts s.h a b).topsize = s.h.topsize from fun _ _ => rfl] at hinit
+        obtain ⟨h1, h2, e1, e2, hs3⟩ := sg_init_top_ok hinit (by show s.h.top % 16 = 0; omega) (by show s.h.top + 32 ≤ _; omega)
+        have r1' := writeHead_window_ok e1 (pre := pre) (ms := [x]) (post := post)
+          (by exact hdrop)
+          (by intro q hq; have := o1 q hq; show q.addr < s.h.top; omega)
+          (by
+            intro m hm
+            simp only [List.mem_singleton] at hm
+            subst hm
+            show s.h.top ≤ m.addr ∧ (m.addr = s.h.top ∨ m.addr < s.h.top + (s.h.topsize - r1)); omega)
+          (by intro q hq; have := o5 q hq; show s.h.top < q.addr ∧ s.h.top + (s.h.topsize - r1) ≤ q.addr; omega)
+        have hpf1 : pfootAt (pre ++ [x] ++ post) s.h.top = x.pfoot := by
+          apply pfootAt_some
+          rw [List.append_assoc, findEnt_skip (fun q hq => by have := o1 q hq; omega), ← hxa]
+          exact findEnt_head
+        dsimp only at r1'
+        rw [hdrop, hpf1] at r1'
+        subst r1'
+        have r2 := writeHead_window_ok e2
+          (pre := pre ++ [{ addr := s.h.top, size := s.h.topsize - r1, cin := false, pin := true, pfoot := x.pfoot }])
+          (ms := []) (post := post)
+          (by simp)
+          (by
+            intro q hq
+            rcases List.mem_append.1 hq with hq | hq
+            · have := o1 q hq; show q.addr < s.h.top + (s.h.topsize - r1); omega
+            · simp only [List.mem_singleton] at hq; subst hq; show s.h.top < s.h.top + (s.h.topsize - r1); omega)
+          (by simp)
+          (by
+            intro q hq; have := o5 q hq
+            show s.h.top + (s.h.topsize - r1) < q.addr ∧ s.h.top + (s.h.topsize - r1) + 80 ≤ q.addr; omega)
+        dsimp only at r2
+        generalize pfootAt _ (s.h.top + (s.h.topsize - r1)) = pf at r2
+        subst r2
+        subst hs3
+        have hr1le := hle hne
+        refine sg_retop hi (pre := pre) (post := post) (x := x) (f := f) (n := s.h.topsize - r1)
+          (newsize := sp.size - r1) hsegs (by rw [hes]; simp) hxa hxf hxs hfa hfc hfp hfs hgb hgt
+          (x' := { addr := s.h.top, size := s.h.topsize - r1, cin := false, pin := true, pfoot := x.pfoot })
+          (f' := { addr := s.h.top + (s.h.topsize - r1), size := 80, cin := false, pin := false, pfoot := pf })
+          (by simp [St.tag, Heap.tag]) rfl rfl rfl rfl rfl rfl rfl rfl rfl (by omega) (by omega) (by omega)
+          (by omega) (by omega) ?_ (by intro q hq; have := o5 q hq; omega)
+          rfl rfl rfl rfl rfl rfl rfl
+        intro g hg
+        rcases d1 g hg with h | h
+        · left; omega
+        · right; exact h
+      · msimp at h
+        simp only [Prod.mk.injEq] at h
+        obtain ⟨h, _⟩ := h
+        subst h
+        exact ⟨sg_sinv_same hi ⟨rfl, rfl, rfl, rfl, rfl, rfl, rfl⟩ rfl rfl (fun _ => rfl), sg_sameUsers_of_eq rfl rfl⟩
+  · msimp at h
+    simp only [Prod.mk.injEq] at h
+    obtain ⟨h, _⟩ := h
+    subst h
+    exact ⟨hi, fun _ _ => Iff.rfl⟩
+
+/-- **`sys_trim`**, given `release_unused_segments` -/
+theorem sg_sys_trim_of_release (hrel : release_unused_segments_Spec) : sys_trim_Spec := by
+  intro s s' hi pad b h
+  unfold sys_trim at h
+  dsimp only at h
+  split at h
+  · msimp at h
+    obtain ⟨⟨s1, r1⟩, h1, ⟨s2, r2⟩, h2, h⟩ := h
+    simp only [Prod.mk.injEq] at h
+    obtain ⟨h, _⟩ := h
+    subst h
+    obtain ⟨i1, u1⟩ := sg_trim_top hi h1
+    obtain ⟨i2, u2⟩ := hrel i1 h2
+    split
+    · exact ⟨sg_sinv_same i2 ⟨rfl, rfl, rfl, rfl, rfl, rfl, rfl⟩ rfl rfl (fun _ => rfl),
+        sg_sameUsers_trans u1 (sg_sameUsers_trans u2 (sg_sameUsers_of_eq rfl rfl))⟩
+    · exact ⟨i2, sg_sameUsers_trans u1 u2⟩
+  · msimp at h
+    simp only [Prod.mk.injEq] at h
+    obtain ⟨h, _⟩ := h
+    subst h
+    exact ⟨hi, fun _ _ => Iff.rfl⟩
+
 end TinyVerif.Dl
